@@ -347,6 +347,218 @@ def opentypes_of(cls, qual):
     return [t[0] for t in val]
 
 
+class _AuStop(Exception):
+    pass
+
+
+class _Tok(int):
+    """the `token` parameter of receiveChild: behaves as the integer it carries, and stays recognisable as the token"""
+
+
+def _au_run(fn, st, loc):
+    """Execute the statements of one ArgumentUnslicer method on a CONCRETE unslicer state (st: numargs, nargs = len(args),
+    argname) with a tiny evaluator that knows exactly the expressions and statements these methods may use, and return
+    the list of effects it performs (constraint lookups with their arguments, `assert accept`, appends, field updates,
+    argConstraint.checkToken, raised exception classes).  Anything it does not know raises Untranslatable."""
+    eff = []
+    q = "ArgumentUnslicer." + fn.name
+
+    def sym(v):
+        return "token" if isinstance(v, _Tok) else v
+
+    def ev(e):
+        if isinstance(e, ast.Constant):
+            return e.value
+        if isinstance(e, ast.Name):
+            need(e.id in loc, q + ": unknown name " + e.id)
+            return loc[e.id]
+        if isinstance(e, ast.Attribute):
+            src = flat(str(U(e)))
+            if src == "self.numargs":
+                return st["numargs"]
+            if src == "self.argname":
+                return st["argname"]
+            if src in ("self.methodSchema", "self.argConstraint"):
+                return True                                   # a method schema is in force and has handed out a constraint
+            if src == "self.debug":
+                return False
+            if src.startswith("tokens."):
+                return src[7:]
+            raise P.Untranslatable(q + ": attribute " + src)
+        if isinstance(e, ast.Call):
+            f = flat(str(U(e.func)))
+            if f == "len" and len(e.args) == 1 and flat(str(U(e.args[0]))) == "self.args":
+                return st["nargs"]
+            if f == "isinstance" and flat(str(U(e.args[1]))) == "defer.Deferred":
+                return False                                  # gifts (their-reference) are outside the model
+            if f == "six.ensure_str" and len(e.args) == 1:
+                return ev(e.args[0])
+            if f == "list" and len(e.args) == 1 and flat(str(U(e.args[0]))) == "self.kwargs.keys()":
+                return "kwkeys"
+            raise P.Untranslatable(q + ": call " + str(U(e))[:80])
+        if isinstance(e, ast.Tuple):
+            return tuple(ev(x) for x in e.elts)
+        if isinstance(e, ast.UnaryOp) and isinstance(e.op, ast.Not):
+            return not ev(e.operand)
+        if isinstance(e, ast.BoolOp):
+            v = None
+            for x in e.values:
+                v = ev(x)
+                if isinstance(e.op, ast.And) and not v:
+                    return v
+                if isinstance(e.op, ast.Or) and v:
+                    return v
+            return v
+        if isinstance(e, ast.Compare) and len(e.ops) == 1:
+            l, r, op = ev(e.left), ev(e.comparators[0]), e.ops[0]
+            if isinstance(op, ast.Is):
+                return l is r
+            if isinstance(op, ast.IsNot):
+                return l is not r
+            if isinstance(op, ast.In):
+                return l in r
+            if isinstance(op, ast.NotIn):
+                return l not in r
+            if isinstance(op, (ast.Eq, ast.NotEq)):
+                return (l == r) if isinstance(op, ast.Eq) else (l != r)
+            need(isinstance(l, int) and isinstance(r, int) and not isinstance(l, bool) and not isinstance(r, bool),
+                 q + ": ordering of non-integers in " + str(U(e)))
+            return {ast.Lt: l < r, ast.LtE: l <= r, ast.Gt: l > r, ast.GtE: l >= r}[type(op)]
+        raise P.Untranslatable(q + ": expression " + str(U(e))[:80])
+
+    def run(stmts):
+        for x in stmts:
+            if isinstance(x, ast.Expr) and isinstance(x.value, ast.Constant):
+                continue
+            if isinstance(x, ast.If):
+                run(x.body if ev(x.test) else x.orelse)
+            elif isinstance(x, ast.Return):
+                need(x.value is None, q + ": returns a value")
+                raise _AuStop()
+            elif isinstance(x, ast.Raise):
+                eff.append(("raise", str(U(x.exc.func)) if isinstance(x.exc, ast.Call) else str(U(x.exc))))
+                raise _AuStop()
+            elif isinstance(x, ast.Assert):
+                t = flat(str(U(x.test)))
+                if t == "accept":
+                    eff.append(("assert_accept",))
+                else:
+                    need(t in ("isinstance(token, int)", "ready_deferred is None"), q + ": assert " + t)
+            elif isinstance(x, ast.Assign) and len(x.targets) == 1:
+                tgt = x.targets[0]
+                if isinstance(tgt, ast.Name):
+                    loc[tgt.id] = ev(x.value)
+                elif isinstance(tgt, ast.Attribute) and flat(str(U(tgt))) in ("self.numargs", "self.argname"):
+                    v = ev(x.value)
+                    st[tgt.attr] = v
+                    eff.append(("set", tgt.attr, sym(v)))
+                elif isinstance(tgt, ast.Tuple) and [flat(str(U(t))) for t in tgt.elts] == ["accept", "self.argConstraint"] and \
+                        isinstance(x.value, ast.Call) and isinstance(x.value.func, ast.Attribute) and \
+                        isinstance(x.value.func.value, ast.Name) and x.value.func.attr in ("getPositionalArgConstraint", "getKeywordArgConstraint"):
+                    need(loc.get(x.value.func.value.id) is True and not x.value.keywords, q + ": lookup not on the method schema")
+                    eff.append(("lookup", x.value.func.attr, tuple(sym(ev(a_)) for a_ in x.value.args)))
+                    loc["accept"] = "ACCEPT"
+                elif isinstance(tgt, ast.Subscript) and flat(str(U(tgt))) == "self.kwargs[self.argname]":
+                    eff.append(("kwset", sym(ev(x.value))))
+                else:
+                    raise P.Untranslatable(q + ": assignment " + str(U(x))[:80])
+            elif isinstance(x, ast.Expr) and isinstance(x.value, ast.Call):
+                f = flat(str(U(x.value.func)))
+                if f == "self.args.append" and len(x.value.args) == 1:
+                    eff.append(("append", sym(ev(x.value.args[0]))))
+                    st["nargs"] += 1
+                elif f == "self.argConstraint.checkToken" and [flat(str(U(a_))) for a_ in x.value.args] == ["typebyte", "size"]:
+                    eff.append(("argcheck",))
+                else:
+                    raise P.Untranslatable(q + ": statement " + str(U(x))[:80])
+            else:
+                raise P.Untranslatable(q + ": statement " + str(U(x))[:80])
+    try:
+        run(fn.body)
+    except _AuStop:
+        pass
+    return eff
+
+
+def _au_reference(method, cand, st, loc):
+    """what the MODEL's ArgumentUnslicer (Schema.au_child / au_close with the parameters cand) does in the same state"""
+    cmpf = {"SLt": lambda a, b: a < b, "SLe": lambda a, b: a <= b, "SGt": lambda a, b: a > b, "SGe": lambda a, b: a >= b,
+            "SEq": lambda a, b: a == b, "SNe": lambda a, b: a != b}[cand[0]]
+    zero_skips, first, asserts = cand[1:]
+    N, k, name = st["numargs"], st["nargs"], st["argname"]
+    acc = [("assert_accept",)] if asserts else []
+    if method == "receiveChild":
+        if N is None:
+            t = loc["token"]
+            return [("set", "numargs", "token")] + ([] if (zero_skips and t == 0) else [("lookup", "getPositionalArgConstraint", (first,))] + acc)
+        if cmpf(k, N):
+            return [("append", "token")] + ([("lookup", "getPositionalArgConstraint", (k + 1,))] + acc if cmpf(k + 1, N) else [])
+        if name is None:
+            return [("set", "argname", "token"), ("lookup", "getKeywordArgConstraint", ("token", N, "kwkeys"))] + acc
+        return [("kwset", "token"), ("set", "argname", None)]
+    if method == "checkToken":
+        tb = loc["typebyte"]
+        if N is None:
+            return [("raise", "BananaError")] if tb != "INT" else []
+        if cmpf(k, N):
+            return [("argcheck",)]
+        if name is None:
+            return [("raise", "BananaError")] if tb not in ("STRING", "VOCAB") else []
+        return [("argcheck",)]
+    # receiveClose: only the "ended too early" test
+    return [("raise", "BananaError")] if (N is None or cmpf(k, N) or name is not None) else []
+
+
+def argument_unslicer_facts(cls):
+    """ArgumentUnslicer.checkToken / receiveChild / receiveClose are EXECUTED statement by statement (_au_run) on every
+    small concrete state (count not yet seen / 0..3, 0..4 values received, a keyword name waiting or not, count token 0 or
+    2, every kind of type byte).  The parameters of the model's machine (Schema.au_child: comparison of len(args) with the
+    count, whether a zero count skips the first constraint lookup, index of the first lookup, `assert accept`) are those
+    for which the model performs the same effects in every state; none or several -> Untranslatable.  Rewrites that keep
+    the effects (merged branches, hoisted locals, `a and b` for nested ifs) give the same parameters."""
+    q = "ArgumentUnslicer"
+    rc, ck, cl = (P.find_def(cls, m) for m in ("receiveChild", "checkToken", "receiveClose"))
+    cl_first = [x for x in cl.body if not (isinstance(x, ast.Expr) and isinstance(x.value, ast.Constant)) and
+                not (isinstance(x, ast.If) and flat(str(U(x.test))) == "self.debug")][:1]
+    need(cl_first and isinstance(cl_first[0], ast.If), q + ".receiveClose does not start with the 'ended too early' test")
+    close_fn = ast.FunctionDef(name="receiveClose", args=cl.args, body=cl_first, decorator_list=[])
+    states = [dict(numargs=None, nargs=0, argname=None)]
+    for N in (0, 1, 2, 3):
+        for k in (0, 1, 2, 3, 4):
+            for name in (None, "NAME"):
+                states.append(dict(numargs=N, nargs=k, argname=name))
+    runs = []
+    for st in states:
+        toks = (_Tok(0), _Tok(2)) if st["numargs"] is None else (_Tok(7),)
+        for t in toks:
+            runs.append(("receiveChild", rc, st, dict(token=t, ready_deferred=None)))
+        for tb in ("INT", "NEG", "STRING", "VOCAB", "OPEN", "FLOAT", "LONGINT"):
+            runs.append(("checkToken", ck, st, dict(typebyte=tb, size=5)))
+        runs.append(("receiveClose", close_fn, st, {}))
+    observed = [(m, st, loc, _au_run(fn_, dict(st), dict(loc))) for m, fn_, st, loc in runs]
+    cands = [(c, z, f, a_) for c in ("SLt", "SLe", "SGt", "SGe", "SEq", "SNe") for z in (True, False) for f in (0, 1) for a_ in (True, False)]
+    fit = [cd for cd in cands if all(_au_reference(m, cd, st, loc) == eff for m, st, loc, eff in observed)]
+    if len(fit) != 1:
+        why = ""
+        ref = ("SLt", True, 0, True)
+        for m, st, loc, eff in observed:
+            if _au_reference(m, ref, st, loc) != eff:
+                why = "; e.g. %s in state %s with %s does %s, the reference text does %s" % (
+                    m, st, {k_: (int(v) if isinstance(v, _Tok) else v) for k_, v in loc.items()}, eff, _au_reference(m, ref, st, loc))
+                break
+        raise P.Untranslatable(q + ": %d parameter settings of the model's machine reproduce the effects of checkToken / "
+                               "receiveChild / receiveClose on all %d small states%s" % (len(fit), len(observed), why))
+    cmp_, zero_skips, first, asserts = fit[0]
+    out = ["Definition au_pos_cmp : scmp := %s.  (* len(self.args) OP self.numargs: a positional value is still expected *)" % cmp_,
+           "Definition au_count_zero_skips : bool := %s.  (* a zero count skips the first constraint lookup *)" % ("true" if zero_skips else "false"),
+           "Definition au_first_index : Z := %d.  (* ms.getPositionalArgConstraint(%d) after the count *)" % (first, first),
+           "Definition au_asserts_accept : bool := %s.  (* `assert accept` after every constraint lookup *)" % ("true" if asserts else "false")]
+    st = [flat(str(U(x))) for x in P.find_def(cls, "start").body]
+    for frag in ("self.numargs = None", "self.args = []", "self.kwargs = {}", "self.argname = None", "self.argConstraint = None"):
+        need(frag in st, q + ".start no longer contains " + frag)
+    return out
+
+
 OT = {"list": "OtList", "tuple": "OtTuple", "set": "OtSet", "immutable-set": "OtFset", "dict": "OtDict",
       "unicode": "OtUnicode", "boolean": "OtBool", "none": "OtNone", "my-reference": "OtMyRef", "their-reference": "OtTheirRef"}
 
@@ -711,6 +923,50 @@ def generate():
                  "ms.getPositionalArgConstraint(nextargnum)",
                  "ms.getKeywordArgConstraint(self.argname, self.numargs, list(self.kwargs.keys()))"):
         need(frag in asrc, "ArgumentUnslicer no longer contains: " + frag)
+    # ---------------------------------------------------------------- ArgumentUnslicer as a state machine (call.py)
+    out.extend(argument_unslicer_facts(arg))
+    # the two unknown-argument flags of RemoteMethodSchema(**kwargs)
+    gkf = flat(str(gk))
+    i_ign, i_acc = gkf.find("if self.ignoreUnknown: return (False, None)"), gkf.find("if self.acceptUnknown: return (True, None)")
+    i_get, i_unk = gkf.find("c = self.argConstraints.get(argname)"), gkf.find("raise Violation(\"unknown argument")
+    need(0 <= i_get < i_ign < i_acc < i_unk, "getKeywordArgConstraint: known name, then ignoreUnknown -> (False, None), then "
+         "acceptUnknown -> (True, None), then Violation -- order changed")
+    rinit = U(P.find_def(rm, "RemoteMethodSchema.__init__"))
+    for frag in ("if '__ignoreUnknown__' in kwargs:\n self.ignoreUnknown = kwargs['__ignoreUnknown__']\n del kwargs['__ignoreUnknown__']",
+                 "if '__acceptUnknown__' in kwargs:\n self.acceptUnknown = kwargs['__acceptUnknown__']\n del kwargs['__acceptUnknown__']"):
+        need(frag in rinit, "RemoteMethodSchema.__init__ no longer contains: " + frag)
+    rcls = P.find_class(rm, "RemoteMethodSchema")
+    for nm_ in ("ignoreUnknown", "acceptUnknown"):
+        v_ = class_attr(rcls, nm_)
+        need(isinstance(v_, ast.Constant) and v_.value is False, "RemoteMethodSchema.%s default" % nm_)
+    # checkAllArgs hands every bound (name, value) to getKeywordArgConstraint(argname) -- no previous names -- and calls
+    # checkObject on whatever constraint comes back (None for an unknown name under either flag: AttributeError)
+    loop = [n for n in ast.walk(caa) if isinstance(n, ast.For) and flat(str(U(n.iter))) == "list(allargs.items())"]
+    need(len(loop) == 1, "checkAllArgs: loop over allargs.items()")
+    lsrc = [flat(str(U(x))) for x in loop[0].body]
+    need(lsrc[0] == "accept, constraint = self.getKeywordArgConstraint(argname)" and
+         any(x.startswith("try: constraint.checkObject(argvalue, inbound) except Violation as v:") and x.endswith("raise") for x in lsrc[1:])
+         and not any(isinstance(n, (ast.Continue, ast.Break, ast.Return)) for x in loop[0].body for n in ast.walk(x)),
+         "checkAllArgs: per-argument check changed: %s" % lsrc)
+    out.append("Definition checkAllArgs_checks_every_bound_name : bool := true.  (* no continue/break/return in the loop; "
+               "`constraint.checkObject` on the constraint getKeywordArgConstraint(argname) returned *)")
+    # Broker._callFinished: checkResults(res, False) dominates send(AnswerSlicer(reqID, res, ..)), same name `res`
+    cfn = P.find_def(P.load("broker.py"), "Broker._callFinished")
+    cst = [x for x in cfn.body if not (isinstance(x, ast.Expr) and isinstance(x.value, ast.Constant))]
+    csrc = [flat(str(U(x))) for x in cst]
+    i_chk = [i for i, x in enumerate(csrc) if x.startswith("if methodSchema:") and "methodSchema.checkResults(res, False)" in x]
+    i_ans = [i for i, x in enumerate(csrc) if x == "answer = call.AnswerSlicer(reqID, res, methodName)"]
+    need(len(i_ans) == 1 and "methodSchema = delivery.methodSchema" in csrc, "_callFinished: answer construction changed")
+    rebinds = [n for x in cst for n in ast.walk(x) if isinstance(n, ast.Name) and n.id == "res" and isinstance(n.ctx, ast.Store)]
+    need(not rebinds, "_callFinished re-binds res")
+    crs = flat(str(U(P.find_def(rm, "RemoteMethodSchema.checkResults"))))
+    need("if self.responseConstraint: self.responseConstraint.checkObject(results, inbound)" in crs, "checkResults changed")
+    checks_res = len(i_chk) == 1 and i_chk[0] < i_ans[0]
+    if checks_res:
+        tr_ = [n for n in ast.walk(cst[i_chk[0]]) if isinstance(n, ast.Try)]
+        need(len(tr_) == 1 and all(flat(str(U(h.body[-1]))) == "raise" for h in tr_[0].handlers), "_callFinished swallows the Violation of checkResults")
+    out.append("Definition callFinished_checks_results : bool := %s.  (* methodSchema.checkResults(res, False) before the "
+               "answer is sent, a Violation propagates *)" % ("true" if checks_res else "false"))
     # ReferenceUnslicer.receiveChild: `if self.constraint: self.constraint.checkObject(self.obj, True)` must be a top-level
     # statement reached on EVERY path after `self.obj = self.protocol.getObject(obj)`: no return / continue / break and no
     # re-binding of self.obj / self.constraint in between (e.g. an early return for Deferred placeholders skips it)
